@@ -55,3 +55,9 @@ func VerifIsUnrecoveryError(text string) bool {
 type verifTextErr string
 
 func (e verifTextErr) Error() string { return string(e) }
+
+// VerifIsValidBatchableWrite calls the pre-check that decides whether a batchable write may join the
+// open write batch of the apply loop.
+func VerifIsValidBatchableWrite(cmdName string, args [][]byte, ts int64) bool {
+	return isValidBatchableWrite(cmdName, args, ts)
+}
